@@ -98,6 +98,7 @@ func runC20(o *cli.Opts, run *evid.Run) {
 	run.Require("histories checked by porcupine", run.GetInt("porcupine_ok"), 2)
 	run.Require("max client overlap", run.GetInt("max_overlap"), 4)
 	run.Require("long-lived (>30 s) requests", run.GetInt("slow_requests"), 1)
+	run.Require("quiescent gauge reads between bursts", run.GetInt("quiescent_gauge_reads"), 200)
 }
 
 func c20Mode(o *cli.Opts, run *evid.Run, bin, mode, variant string) {
@@ -148,6 +149,9 @@ func c20Mode(o *cli.Opts, run *evid.Run, bin, mode, variant string) {
 		}
 	}()
 	do := func(client int, rq *request) {
+		if liveness.hung() && run.Violations() > 0 {
+			return // the server stopped answering: the violations already recorded are the verdict
+		}
 		rs := send(srv.ProverAddr, rq, 10*time.Minute)
 		op := clientOp{client: client, method: rq.method, class: rq.class, status: rs.status, call: rs.call, ret: rs.ret}
 		if rs.err != nil {
@@ -211,6 +215,60 @@ func c20Mode(o *cli.Opts, run *evid.Run, bin, mode, variant string) {
 	phase("concurrent8", 8, o.Pick(14, 200))
 	phase("concurrent16", 16, o.Pick(10, 200))
 	slow.Wait()
+	// bursts of cheap requests that finish within microseconds of one another, each followed by a quiescent scrape:
+	// with nothing outstanding the in-flight gauge must read 0 (a gauge published out of order stays stuck until
+	// the next request overwrites it, so it has to be looked at between bursts, not only at the end)
+	for b := 0; b < o.Pick(250, 4000); b++ {
+		bkey := fmt.Sprintf("%s/burst/%d", key, b)
+		if liveness.hung() && run.Violations() > 0 {
+			break
+		}
+		r := gen.RNG(o.Seed, bkey)
+		n := []int{16, 8, 24, 12, 32}[b%5]
+		reqs := make([]*request, n)
+		for i := range reqs {
+			switch r.Intn(3) {
+			case 0:
+				reqs[i] = methodRequest(r, ks)
+			case 1:
+				reqs[i] = shapeRequest(r, ks)
+			default:
+				reqs[i] = malformedRequest(r, ks)
+				if reqs[i].expect == expectEither400 || reqs[i].raw != "" {
+					reqs[i] = methodRequest(r, ks)
+				}
+			}
+		}
+		var bw sync.WaitGroup
+		release := make(chan struct{})
+		for i := range reqs {
+			i := i
+			bw.Add(1)
+			go func() {
+				defer bw.Done()
+				<-release
+				do(100+i, reqs[i])
+			}()
+		}
+		close(release)
+		bw.Wait()
+		// every client has its complete response: quiescent. A reading that is still settling is re-read; only a
+		// gauge that STAYS away from zero is reported.
+		var sc scrape
+		for try := 0; try < 6; try++ {
+			sc = scrapeMetrics(srv.MetricsAddr)
+			if sc.err == nil && sc.gauge == 0 {
+				break
+			}
+			time.Sleep(150 * time.Millisecond)
+		}
+		if sc.err != nil {
+			run.Violate(bkey+"/scrape", "the metrics endpoint does not answer between bursts: "+sc.err.Error(), nil)
+		} else if sc.gauge != 0 {
+			run.Violate(bkey+"/gauge", fmt.Sprintf("in-flight gauge stays at %d after a burst of %d requests has been answered completely and nothing is outstanding", sc.gauge, n), map[string]any{"burst": b, "size": n})
+		}
+		run.Add("quiescent_gauge_reads", 1)
+	}
 	close(stopScrape)
 	sw.Wait()
 	// quiescence: all clients returned; final scrape
